@@ -32,6 +32,61 @@ def is_integral(x):
     return fractions.Fraction(x).denominator == 1
 
 
+class SText(SV):
+    """
+    A `str` abstracted to its length (and the length of its stripped form): the z3 string solver does
+    not decide `len(s) >= 256` in useful time, and the verified code only takes len(), truthiness,
+    `[:n]`, `+ '...'` and `.strip()` of the text.  In concrete mode a real str of that shape is used.
+    """
+    __slots__ = ('stripped',)
+
+    def __init__(self, length, stripped):
+        self.term = length.term if isinstance(length, SNum) else length
+        self.stripped = stripped
+
+    @property
+    def __class__(self):
+        return str
+
+    def _len(self):
+        import z3
+        return SNum(self.term if z3.is_expr(self.term) else z3.IntVal(self.term), True)
+
+    def vc_len(self):
+        return self._len()
+
+    def truth(self):
+        return self._len() > 0
+
+    def __bool__(self):
+        return bool(self._len() > 0)
+
+    def strip(self):
+        return SText(self.stripped, self.stripped)
+
+    def __getitem__(self, k):
+        if not isinstance(k, slice) or k.start is not None or k.step is not None or not isinstance(k.stop, int) or k.stop < 0:
+            raise Unsupported(f'SText[{k!r}]')
+        n = self._len()
+        cut = If(n < k.stop, n, k.stop)
+        return SText(cut, cut)
+
+    def __add__(self, o):
+        if not isinstance(o, str) or isinstance(o, SV):
+            raise Unsupported('SText + non-literal')
+        n = self._len() + len(o)
+        return SText(n, n)
+
+
+def draw_text(vc, name):
+    """An arbitrary text: `length` characters of which the inner `stripped` ones survive .strip()."""
+    n, m = vc.int(name + '.len'), vc.int(name + '.stripped_len')
+    vc.assume(And(0 <= m, m <= n), 'strip() does not lengthen')
+    if vc.concrete:
+        return ' ' * (n - m) + 'x' * m
+    return SText(n, m)
+
+
 # =============================================================================================== N1
 # The status -> exception class table, as the property and docs/configuration.rst ("retries ... HTTP 5xx ...;
 # HTTP 4xx escalate immediately"; 403 and 429 are the two retried 4xx; 401 re-authenticates) need it.
@@ -78,7 +133,7 @@ class _FakeResponse:
         elif k == 'empty-dict':
             self.json_payload = {}
         elif k == 'str':
-            self.json_payload = vc.str('json-string')
+            self.json_payload = draw_text(vc, 'json-string')
         elif k == 'null':
             self.json_payload = None
         elif k == 'nonobject':
@@ -98,7 +153,7 @@ class _FakeResponse:
     async def text(self):
         self.vc.emit('response.text')
         await suspend('response.text')
-        self.text_payload = self.vc.str('text')
+        self.text_payload = draw_text(self.vc, 'text')
         return self.text_payload
 
     def raise_for_status(self):
@@ -171,3 +226,547 @@ def N1(vc):
     if resp.json_outcome in ('other-dict', 'empty-dict', 'null', 'empty-list'):
         vc.ensure('payload_handling', raised.details is None and raised.message is None and len(raised.args) == 0)
     return ('raise', type(raised).__name__, resp.json_outcome)
+
+
+# =============================================================================================== T1
+class _Event:
+    """asyncio.Event by (trusted) contract: a boolean cell; `wait()` returns an awaitable that completes
+    at once if the event is set and otherwise suspends until someone else sets it."""
+
+    def __init__(self, vc, name, state, private):
+        self.vc, self.name, self.state, self.private = vc, name, state, private
+
+    def is_set(self):
+        return self.state
+
+    def set(self):
+        self.vc.emit('event.set', self.name)
+        self.state = True
+
+    def clear(self):
+        self.vc.emit('event.clear', self.name)
+        self.state = False
+
+    def wait(self):
+        return _Wait(self)
+
+
+class _Wait:
+    def __init__(self, event):
+        self.event = event
+
+    def __await__(self):
+        # awaited directly (not through wait_for): completes only when the event is set
+        ev = self.event
+        if not ev.state:
+            if ev.private:
+                raise Unsupported('waiting forever for an event nobody else can set')
+            yield from Suspend('event.wait').__await__()
+            ev.state = True
+        return True
+
+
+@harness('T1', targets='kopf._cogs.aiokits.aiotime.sleep', props=['C07', 'C10', 'C12'],
+         clauses=['no_delay_returns_at_once', 'already_set_returns_m_at_once', 'timeout_returns_none_after_m',
+                  'woken_returns_remaining', 'suspends_at_most_once', 'frame', 'cancellation_propagates'],
+         canaries=['canary.never_sleeps', 'canary.always_none'],
+         trusted=['asyncio.wait_for(aw, timeout) [CPython 3.12]: if `aw` completes without suspending, returns its result '
+                  'without suspending; otherwise suspends once and either returns the result (any time later), or raises '
+                  'asyncio.TimeoutError not earlier than `timeout` seconds of loop time later, or propagates a cancellation',
+                  'asyncio.Event: a fresh Event() is unset and, while not leaked, can never become set; Event.wait() completes iff set',
+                  'loop.time(): the ghost loop clock; monotone; moves only at suspension points',
+                  'builtin min() over a concrete-length list'])
+def T1(vc):
+    """
+    aiotime.sleep(delays, wakeup) implements the contract documented in pyvc/stubs.py::make_sleep:
+    with m := the minimum of the non-None delays (0 if there are none):  m <= 0 => returns None at once
+    (no suspension, clock untouched);  wakeup given and already set => returns m at once without
+    suspending;  otherwise it suspends exactly once and either returns None with clock' >= clock + m
+    (timed out), or -- only when a wakeup event was given -- returns max(0, m - (clock' - clock)) in
+    [0, m] with the wakeup event set.  It never sets or clears the wakeup event itself; a cancellation
+    at the suspension point propagates.
+    `delays` ranges over None, a real, and lists/tuples of 0..3 optional reals (BOUNDED in the length of
+    the collection: the comprehension + min() over a list of symbolic length is outside the engine's
+    reach; all call sites pass a scalar or a short list of handler delays).
+    """
+    clock = Clock()
+    shape = vc.nondet(6, 'delays: None / scalar / collection of 0..3')
+    if shape == 0:
+        delays, items = None, []
+    elif shape == 1:
+        delays = vc.real('delay'); items = [delays]
+    else:
+        items = [vc.opt(f'delays[{i}]', vc.real) for i in range(shape - 2)]
+        delays = tuple(items) if vc.nondet(2, 'list / tuple') else list(items)
+    actual = [d for d in items if d is not None]
+    m = 0
+    if actual:
+        m = actual[0]
+        for d in actual[1:]:
+            m = If(d < m, d, m)
+    has_wakeup = vc.nondet(2, 'wakeup is None?') == 1
+    wakeup = _Event(vc, 'wakeup', vc.bool('wakeup.is_set'), private=False) if has_wakeup else None
+    was_set = wakeup.state if has_wakeup else False
+    t0 = clock.now
+    outcome = {'kind': None, 'suspended': 0, 't1': None}
+
+    async def wait_for(aw, timeout=None):
+        vc.emit('wait_for', aw, timeout)
+        if not isinstance(aw, _Wait):
+            raise Unsupported('wait_for of something else than Event.wait()')
+        ev = aw.event
+        if ev.state:                      # completes synchronously: no suspension (CPython 3.12)
+            outcome['kind'] = 'at-once'
+            return True
+        if timeout is None:
+            raise Unsupported('wait_for without a timeout')
+        outcome['suspended'] += 1
+        await suspend('wait_for')
+        can_wake = not ev.private
+        k = vc.nondet(2, 'timed out / woken') if can_wake else 0
+        if k == 1:
+            clock.advance(0)
+            ev.state = True
+            outcome['kind'] = 'woken'
+            outcome['t1'] = clock.now
+            return True
+        clock.advance(If(timeout > 0, timeout, 0))
+        outcome['kind'] = 'timeout'
+        outcome['t1'] = clock.now
+        raise asyncio.TimeoutError()
+
+    cancelled = [None]
+
+    def on_suspend(site):
+        if vc.nondet(2, 'cancelled here?') == 1:
+            cancelled[0] = asyncio.CancelledError()
+            return cancelled[0]
+
+    ld = vc.load('kopf._cogs.aiokits.aiotime', 'sleep', stubs={
+        'asyncio.wait_for': wait_for,
+        'asyncio.Event': lambda: _Event(vc, 'private', False, private=True),
+        'asyncio.get_running_loop': lambda: StubLoop(clock),
+    })
+    escaped = None
+    result = None
+    try:
+        result = vc.drive(ld.fn(delays, wakeup) if has_wakeup else ld.fn(delays), on_suspend)
+    except BaseException as e:
+        if not_ours(e):
+            raise
+        escaped = e
+    names = [ev[0] for ev in vc.trace]
+    vc.ensure('frame', 'event.set' not in names and 'event.clear' not in names)
+    vc.ensure('suspends_at_most_once', outcome['suspended'] <= 1 and names.count('wait_for') <= 1)
+    if cancelled[0] is not None:
+        vc.ensure('cancellation_propagates', escaped is cancelled[0])
+        return ('cancelled',)
+    vc.ensure('cancellation_propagates', escaped is None)
+    if escaped is not None:
+        return ('raise', type(escaped).__name__)
+    kind = outcome['kind']
+    # -- no delay
+    vc.ensure('no_delay_returns_at_once', Implies(m <= 0, kind is None and result is None and 'wait_for' not in names))
+    vc.ensure('no_delay_returns_at_once', Implies(kind is None, m <= 0))
+    vc.canary('canary.never_sleeps', kind is None)
+    vc.canary('canary.always_none', result is None)
+    if kind is None:
+        vc.ensure('no_delay_returns_at_once', Eq(clock.now, t0))
+        return ('nosleep', result)
+    # -- the wait was entered with the minimum as its timeout, on the right event
+    wf = [ev for ev in vc.trace if ev[0] == 'wait_for'][0]
+    vc.ensure('timeout_returns_none_after_m', Eq(wf[2], m))
+    vc.ensure('frame', wf[1].event is wakeup if has_wakeup else wf[1].event.private)
+    if kind == 'at-once':
+        vc.ensure('already_set_returns_m_at_once', And(has_wakeup, was_set))
+        vc.ensure('already_set_returns_m_at_once', result is not None and Eq(result, m) and outcome['suspended'] == 0)
+        vc.ensure('already_set_returns_m_at_once', Eq(clock.now, t0))
+        return ('already-set', result)
+    vc.ensure('already_set_returns_m_at_once', Not(And(has_wakeup, was_set)))
+    passed = outcome['t1'] - t0
+    if kind == 'timeout':
+        vc.ensure('timeout_returns_none_after_m', result is None)
+        vc.ensure('timeout_returns_none_after_m', clock.now >= t0 + m)
+        return ('timeout', result)
+    vc.ensure('woken_returns_remaining', has_wakeup)
+    vc.ensure('woken_returns_remaining', result is not None and Eq(result, If(m - passed > 0, m - passed, 0)))
+    vc.ensure('woken_returns_remaining', result is not None and And(result >= 0, result <= m))
+    vc.ensure('woken_returns_remaining', has_wakeup and wakeup.state is True)
+    return ('woken', result)
+
+
+# =============================================================================================== N2
+class _Poison:
+    """Value of a loop-local temporary left over from an earlier iteration: must never be read."""
+
+    def _bad(self, *a, **kw):
+        raise Unsupported('the loop reads a temporary of a previous iteration (loop-carried state is not in the loop contract)')
+    __bool__ = __eq__ = __ne__ = __lt__ = __gt__ = __le__ = __ge__ = __format__ = __str__ = __call__ = _bad
+    __add__ = __radd__ = __sub__ = __rsub__ = __iter__ = __len__ = __getitem__ = __int__ = __float__ = _bad
+    __hash__ = _bad
+
+    def __getattr__(self, name):
+        raise Unsupported(f'the loop reads `.{name}` of a temporary of a previous iteration')
+
+
+POISON = _Poison()
+
+
+class _SymRepeat:
+    """itertools.repeat(x) by contract: x forever."""
+    def __init__(self, value, *times):
+        if times:
+            raise Unsupported('itertools.repeat with a count')
+        self.value = value
+
+
+class _SymChain:
+    """itertools.chain(*parts) by contract: the concatenation (lazy: nothing is iterated at construction)."""
+    def __init__(self, *parts):
+        self.parts = parts
+
+
+class _SymEnumerate:
+    """enumerate(it, start) by contract: (start + i, it[i])."""
+    def __init__(self, inner, start=0):
+        self.inner, self.start = inner, start
+
+
+class _GhostIterable:
+    """An `Iterable[float]` that is not `Sized` (a user class with `__iter__` only): re-iterable; it yields
+    `length` reals (any number >= 0), or infinitely many if `infinite`; the content is arbitrary."""
+
+    def __init__(self, vc):
+        self.vc = vc
+        self.infinite = vc.bool('backoffs.infinite')
+        self.length = vc.int('backoffs.length')
+        vc.assume(self.length >= 0, 'a length')
+        self._memo = {}
+
+    def __iter__(self):
+        raise Unsupported('native iteration over the ghost iterable (outside the loop contract)')
+
+    def has(self, k):
+        return Or(self.infinite, And(k >= 0, k < self.length))
+
+    def at(self, k):
+        # one arbitrary index k is in play per path (the loop contract's iteration): its element is one fresh real
+        if 'x' not in self._memo:
+            self._memo['x'] = self.vc.real('backoffs[k]')
+        return self._memo['x']
+
+
+def elem_at(it, k):
+    """The k-th element (k: symbolic int >= 0) of a lazily described iterable, or _STOP if it has fewer.
+    Forks on "which part does k fall into"."""
+    if isinstance(it, _SymEnumerate):
+        x = elem_at(it.inner, k)
+        return _STOP if x is _STOP else (it.start + k, x)
+    if isinstance(it, _SymRepeat):
+        return it.value
+    if isinstance(it, _SymChain):
+        off = 0
+        for p in it.parts:
+            if isinstance(p, (_SymRepeat, _SymChain, _SymEnumerate)):
+                return elem_at(p, k - off)
+            x = elem_at(p, k - off)
+            if x is not _STOP:
+                return x
+            off = off + length_of(p)
+        return _STOP
+    if isinstance(it, _GhostIterable):
+        if it.has(k):
+            return it.at(k)
+        return _STOP
+    if isinstance(it, SSeq):
+        if k < vc_len(it):
+            return it[k]
+        return _STOP
+    if isinstance(it, (list, tuple)):
+        for i, x in enumerate(it):
+            if k == i:
+                return x
+        return _STOP
+    raise Unsupported(f'the retry loop iterates over something the loop contract does not describe: {type(it).__name__}')
+
+
+def length_of(p):
+    if isinstance(p, _GhostIterable):
+        return p.length          # only reached when the iterable turned out finite
+    return vc_len(p)
+
+
+def contains(text, marker):
+    return text.contains(marker) if isinstance(text, SStr) else (marker in text)
+
+
+SSL_CLOSED_MARKER = '[SSL: APPLICATION_DATA_AFTER_CLOSE_NOTIFY]'
+
+
+class _RetryAfterHeader:
+    """The value of a `Retry-After` header: a non-empty string spelling the number `value` (delay-seconds)."""
+    def __init__(self, value):
+        self.value = value
+
+    def __bool__(self):
+        return True
+
+
+def _new_exc(cls, *args):
+    e = cls.__new__(cls)
+    e.args = args
+    return e
+
+
+@harness('N2', targets='kopf._cogs.clients.api.request', props=['C12'],
+         clauses=['retried_kinds', 'attempts_bounded', 'sleep_is_backoff', 'never_less_than_retry_after', 'retry_after_policy',
+                  'escalates_at_once', 'session_closed_reauth', 'success_returns_response', 'same_request',
+                  'cancellation_propagates', 'one_attempt_per_iteration'],
+         canaries=['canary.never_retries', 'canary.never_escalates', 'canary.never_succeeds'],
+         trusted=['aiohttp.ClientSession.request: returns a response or raises any exception (representatives of the real '
+                  'aiohttp hierarchy); ClientSession.closed: a boolean',
+                  'asyncio.sleep(d): suspends for d seconds, cancellable',
+                  'itertools.chain / itertools.repeat / enumerate: lazy concatenation / constant stream / (start+i, x_i)',
+                  'float(<Retry-After header>) is the number the header spells (delay-seconds form; the HTTP-date form is not modelled: it raises ValueError out of request())',
+                  'str(exception): some string'])
+def N2(vc):
+    """
+    api.request (the function under the @authenticated decorator), by a LOOP CONTRACT over the retry loop
+    -- the claim holds for backoff configurations of ANY length: a scalar, a list of symbolic length and
+    content (incl. empty), a non-Sized re-iterable (finite of any length, or infinite).  Ghost: k = number
+    of completed attempts at the loop head; invariant k <= len(backoffs).  For the arbitrary k-th iteration:
+      * exactly one request attempt is made, with the caller's method/url/payload/headers/timeout;
+      * success (check_response passes, contract N1) returns that response, no sleep;
+      * a failure is retried (one sleep, then the next attempt) only if it is of a retried kind --
+        aiohttp.ClientConnectionError, asyncio.TimeoutError, APIError with status 5xx/403/429 -- and only if
+        the k-th backoff exists (=> attempts <= len(backoffs)+1); a retried kind escalates only when the
+        backoffs are exhausted (or the failure says the session is dead: str(e) has the SSL close-notify marker
+        => APISessionClosed);
+      * the sleep equals backoffs[k], except for a 429 that names a retry-after value ra (Retry-After header,
+        else details.retryAfterSeconds): the sleep is never shorter than ra; and for integer ra it is exactly
+        ra if enforce_retry_after or ra > backoffs[k], else backoffs[k] (docs/configuration.rst);
+      * every other failure (other 4xx incl. 401, unrelated exceptions) escalates at once as that very
+        exception, without sleeping; RuntimeError on a closed session escalates as APISessionClosed;
+        a cancellation (at the request or in the sleep) propagates.
+    KNOWN FINDING F-C12-1: `int(float(header))` truncates: a fractional Retry-After (0.5; 2.5) waits less
+    than requested.
+    """
+    import itertools
+    from pyvc.loader import _shadow_builtins
+    shadow = _shadow_builtins()
+    # ---- the configuration
+    cfg = ['scalar', 'list', 'iterable'][vc.nondet(3, 'error_backoffs shape')]
+    if cfg == 'scalar':
+        backoffs = vc.real('backoff'); n_spec = 1
+        b_at = lambda k: backoffs
+    elif cfg == 'list':
+        backoffs = vc.seq('backoffs', 'real'); n_spec = vc_len(backoffs)
+        b_at = lambda k: backoffs[k]
+    else:
+        backoffs = _GhostIterable(vc); n_spec = None
+        b_at = lambda k: backoffs.at(k)
+    enforce = vc.bool('enforce_retry_after')
+    settings = Opaque('settings', networking=Opaque('networking', error_backoffs=backoffs, enforce_retry_after=enforce,
+                                                    request_timeout=None, connect_timeout=None))
+    method, url = 'patch', 'https://server/apis/kopf.dev/v1/kopfexamples/x'
+    payload, headers, timeout = Opaque('payload'), Opaque('headers'), Opaque('timeout')
+    st = {'failure': None, 'response': None, 'checked': None, 'closed': None, 'msg': {}, 'ra': None, 'status': None}
+    ghost = {'k': 0, 'phase': 0}
+
+    # ---- callee contracts
+    class Session:
+        @property
+        def closed(self):
+            if st['closed'] is None:
+                st['closed'] = vc.bool('session.closed')
+            return st['closed']
+
+        async def request(self, **kw):
+            vc.emit('request', kw)
+            await suspend('session.request')
+            reps = [None, aiohttp.ClientConnectionError, aiohttp.ClientOSError,
+                    aiohttp.ServerTimeoutError, asyncio.TimeoutError, RuntimeError,
+                    type('Sub_RuntimeError', (RuntimeError,), {}), aiohttp.ClientResponseError, aiohttp.ClientPayloadError,
+                    OSError, type('UnrelatedError', (Exception,), {})]
+            cls = reps[vc.nondet(len(reps), 'session.request outcome')]
+            if cls is None:
+                st['response'] = Opaque('response')
+                return st['response']
+            st['failure'] = _new_exc(cls, 'x')
+            raise st['failure']
+    context = Opaque('context', session=Session(), server='https://server/')
+
+    async def check_response(response):
+        vc.emit('check_response', response)
+        await suspend('check_response')
+        kinds = ['ok', 401, 403, 404, 409, 422, 429, '4xx', '5xx', '6xx', aiohttp.ClientConnectionError, asyncio.TimeoutError]
+        k = kinds[vc.nondet(len(kinds), 'check_response outcome (contract N1)')]
+        if k == 'ok':
+            st['checked'] = response
+            return None
+        if isinstance(k, type):
+            st['failure'] = _new_exc(k, 'while reading the error body')
+            raise st['failure']
+        status = vc.int('status')
+        hdrs, body = {}, None
+        if isinstance(k, int):
+            vc.assume(Eq(status, k), 'status of the class'); cls = SPECIFIC[k]
+        elif k == '4xx':
+            vc.assume(And(status >= 400, status < 500, *[Not(Eq(status, s)) for s in SPECIFIC]), 'another 4xx'); cls = errors.APIClientError
+        elif k == '5xx':
+            vc.assume(And(status >= 500, status < 600), '5xx'); cls = errors.APIServerError
+        else:
+            vc.assume(And(status >= 600, status <= 999), 'beyond 5xx'); cls = errors.APIError
+        if k == 429:
+            hk = vc.nondet(3, 'Retry-After header: none / other headers only / numeric')
+            dk = vc.nondet(3, 'body: none / Status without retryAfterSeconds / with')
+            if hk == 1:
+                hdrs = {'Content-Type': 'application/json'}
+            if hk == 2:
+                v = vc.real('Retry-After')
+                vc.assume(v >= 0, 'delay-seconds are not negative')
+                hdrs = {'Retry-After': _RetryAfterHeader(v), 'Content-Type': 'application/json'}
+                st['ra'] = v
+            if dk == 1:
+                body = {'kind': 'Status', 'code': 429, 'details': {}}
+            if dk == 2:
+                r2 = vc.int('retryAfterSeconds')
+                vc.assume(r2 >= 0, 'seconds are not negative')
+                body = {'kind': 'Status', 'code': 429, 'details': {'retryAfterSeconds': r2}}
+                if hk != 2:
+                    st['ra'] = r2 if r2 != 0 else None      # 0 = "not set" in the Status schema (omitempty)
+        elif k in (403, '5xx'):
+            # a Retry-After on other statuses is data the contract says nothing about
+            hdrs = {'Retry-After': _RetryAfterHeader(vc.real('Retry-After(other)'))}
+        st['status'] = status
+        st['failure'] = cls(body, status=status, headers=hdrs)
+        raise st['failure']
+    vc.used('errors.check_response', 'N1')
+
+    async def sleep(d):
+        vc.emit('sleep', d)
+        await suspend('asyncio.sleep')
+
+    def my_float(x=0.0):
+        if isinstance(x, _RetryAfterHeader):
+            return x.value
+        return shadow['float'](x)
+
+    def my_str(x=''):
+        if isinstance(x, BaseException):
+            if id(x) not in st['msg']:
+                st['msg'][id(x)] = (x, vc.str('str(e)'))
+            return st['msg'][id(x)][1]
+        return shadow['str'](x)
+
+    cancelled = [None]
+
+    def on_suspend(site):
+        if site in ('session.request', 'asyncio.sleep') and vc.nondet(2, f'cancelled in {site}?') == 1:
+            cancelled[0] = asyncio.CancelledError()
+            return cancelled[0]
+
+    # ---- the loop contract
+    def this_iteration():
+        tr = vc.trace
+        heads = [i for i, ev in enumerate(tr) if ev[0] == 'loop-head']
+        return tr[heads[-1] + 1:] if heads else tr
+
+    def has_backoff(k):
+        return backoffs.has(k) if n_spec is None else (k < n_spec)
+
+    def spec_retried(f):
+        if isinstance(f, errors.APIError):
+            s = f.status
+            return Or(And(s >= 500, s < 600), Eq(s, 403), Eq(s, 429))
+        return isinstance(f, (aiohttp.ClientConnectionError, asyncio.TimeoutError))
+
+    def ssl_closed(f):
+        return contains(st['msg'][id(f)][1], SSL_CLOSED_MARKER) if id(f) in st['msg'] else False
+
+    def backedge(loc):
+        k = ghost['k']
+        ev = this_iteration()
+        reqs = [e for e in ev if e[0] == 'request']
+        sleeps = [e for e in ev if e[0] == 'sleep']
+        f = st['failure']
+        vc.canary('canary.never_retries', False)
+        vc.ensure('one_attempt_per_iteration', len(reqs) == 1)
+        vc.ensure('retried_kinds', f is not None and spec_retried(f))
+        vc.ensure('attempts_bounded', has_backoff(k))
+        vc.ensure('sleep_is_backoff', len(sleeps) == 1)
+        if f is None or len(sleeps) != 1 or not bool(has_backoff(k)):
+            return
+        d, b = sleeps[0][1], b_at(k)
+        ra = st['ra'] if isinstance(f, errors.APITooManyRequestsError) else None
+        if ra is None:
+            vc.ensure('sleep_is_backoff', d is not None and Eq(d, b))
+        else:
+            fractional = Not(is_integral(ra))
+            vc.ensure('never_less_than_retry_after', d is not None and d >= ra, excuse={FINDING_RETRY_AFTER: fractional})
+            vc.ensure('retry_after_policy', Implies(Not(fractional), d is not None and Eq(d, If(Or(enforce, ra > b), ra, b))))
+
+    def invariant(loc):
+        ghost['phase'] += 1
+        k = ghost['k']
+        if ghost['phase'] == 3:
+            backedge(loc)
+            k = k + 1                 # the next loop head
+        return And(k >= 0, Or(backoffs.infinite, k <= backoffs.length) if n_spec is None else k <= n_spec)
+
+    def havoc(loc):
+        ghost['k'] = vc.int('k')
+        return {name: POISON for name in ('retry', 'backoff', 'idx', 'what', 'response', 'e', 'retry_after')}
+
+    def element(loc, iterable):
+        return elem_at(iterable, ghost['k'])
+
+    ld = vc.load('kopf._cogs.clients.api', 'request', strip_decorators=_STRIP_DEFAULT + ('auth.authenticated',),
+                 stubs={'errors.check_response': check_response, 'asyncio.sleep': sleep,
+                        'itertools.chain': _SymChain, 'itertools.repeat': _SymRepeat, 'enumerate': _SymEnumerate,
+                        'float': my_float, 'str': my_str},
+                 loops={1: LoopSpec('for retry, backoff in enumerate(', invariant=invariant, havoc=havoc, element=element)})
+    escaped = result = None
+    try:
+        result = vc.drive(ld.fn(method, url, settings=settings, payload=payload, headers=headers, timeout=timeout,
+                                context=context, logger=NullLogger()), on_suspend)
+    except BaseException as e:
+        if not_ours(e):
+            raise
+        escaped = e
+    # ---- the loop was left by return / raise in its k-th iteration
+    k = ghost['k']
+    ev = this_iteration()
+    reqs = [e for e in ev if e[0] == 'request']
+    sleeps = [e for e in ev if e[0] == 'sleep']
+    f = st['failure']
+    for r in reqs:
+        kw = r[1]
+        vc.ensure('same_request', set(kw) == {'method', 'url', 'json', 'headers', 'timeout'} and kw['method'] == method
+                  and kw['url'] == url and kw['json'] is payload and kw['headers'] is headers and kw['timeout'] is timeout)
+    if cancelled[0] is not None:
+        vc.ensure('cancellation_propagates', escaped is cancelled[0])
+        return ('cancelled',)
+    vc.ensure('one_attempt_per_iteration', len(reqs) == 1)
+    vc.canary('canary.never_escalates', escaped is None)
+    vc.canary('canary.never_succeeds', escaped is not None)
+    if escaped is None:
+        checks = [e for e in ev if e[0] == 'check_response']
+        vc.ensure('success_returns_response', f is None and result is st['response'] and result is not None)
+        vc.ensure('success_returns_response', len(checks) == 1 and checks[0][1] is result and st['checked'] is result)
+        vc.ensure('success_returns_response', len(sleeps) == 0)
+        return ('return', cfg)
+    vc.ensure('escalates_at_once', f is not None)
+    vc.ensure('escalates_at_once', len(sleeps) == 0)
+    if f is None:
+        return ('raise-without-failure', type(escaped).__name__)
+    retried = spec_retried(f)
+    dead = ssl_closed(f)
+    closed = st['closed'] if st['closed'] is not None else False
+    vc.ensure('retried_kinds', Implies(And(retried, Not(dead)), Not(has_backoff(k))))
+    session_gone = Or(And(isinstance(f, RuntimeError), closed), And(retried, dead))
+    vc.ensure('escalates_at_once', Or(escaped is f, And(isinstance(escaped, errors.APISessionClosed), session_gone)))
+    vc.ensure('session_closed_reauth', Implies(And(isinstance(f, RuntimeError), closed), isinstance(escaped, errors.APISessionClosed)))
+    if isinstance(f, errors.APIUnauthorizedError):
+        vc.ensure('escalates_at_once', escaped is f)
+    return ('raise', cfg, type(escaped).__name__)
